@@ -733,4 +733,344 @@ theorem run_refines (capacity : Int) (ops : List (Op K V)) :
     rw [this]; exact hr.keys
   · simpa using hlen
 
+omit [DecidableEq K] in
+/-- every allocated node keeps its key (heap `h'` extends `h` key-wise) -/
+def HK (h h' : Heap K V) : Prop := ∀ i n, h i = some n → ∃ n', h' i = some n' ∧ n'.key = n.key
+
+omit [DecidableEq K] in
+theorem HK.refl (h : Heap K V) : HK h h := fun _ n hn => ⟨n, hn, rfl⟩
+omit [DecidableEq K] in
+theorem HK.trans {h1 h2 h3 : Heap K V} (a : HK h1 h2) (b : HK h2 h3) : HK h1 h3 := by
+  intro i n hn
+  obtain ⟨n2, h2n, k2⟩ := a i n hn
+  obtain ⟨n3, h3n, k3⟩ := b i n2 h2n
+  exact ⟨n3, h3n, k3.trans k2⟩
+
+omit [DecidableEq K] in
+/-- overwriting a node by one with the same key, or writing to an unallocated address -/
+theorem hk_upd (h : Heap K V) (i : Nat) (n' : Node K V) (hk : ∀ n, h i = some n → n'.key = n.key) :
+    HK h (upd h i n') := by
+  intro j n hn
+  by_cases hj : j = i
+  · subst hj; exact ⟨n', by simp [upd], hk n hn⟩
+  · exact ⟨n, by simp [upd, hj, hn], rfl⟩
+
+
+theorem remove_hk (c c' : Cache K V) (i : Nat) (h : remove c i = some c') : HK c.heap c'.heap ∧ c'.fresh = c.fresh := by
+  unfold remove at h
+  simp only [Option.bind_eq_bind, Option.pure_def] at h
+  cases hn : c.heap i with
+  | none => simp [hn] at h
+  | some n =>
+    simp only [hn, Option.bind_some] at h
+    cases hp : n.prev with
+    | none =>
+      simp only [hp, Option.bind_some] at h
+      cases hq : n.next with
+      | none => simp only [hq, Option.bind_some, Option.some.injEq] at h; subst h; exact ⟨HK.refl _, rfl⟩
+      | some q =>
+        simp only [hq] at h
+        cases hqn : c.heap q with
+        | none => simp [hqn] at h
+        | some qn =>
+          simp only [hqn, Option.bind_some, Option.some.injEq] at h; subst h
+          exact ⟨hk_upd _ _ _ (fun m hm => by rw [hqn] at hm; cases hm; rfl), rfl⟩
+    | some p =>
+      simp only [hp] at h
+      cases hpn : c.heap p with
+      | none => simp [hpn] at h
+      | some pn =>
+        simp only [hpn, Option.bind_some] at h
+        have h1 : HK c.heap (upd c.heap p { pn with next := n.next }) :=
+          hk_upd _ _ _ (fun m hm => by rw [hpn] at hm; cases hm; rfl)
+        cases hq : n.next with
+        | none => simp only [hq, Option.bind_some, Option.some.injEq] at h; subst h; exact ⟨by simpa [hq] using h1, rfl⟩
+        | some q =>
+          simp only [hq] at h
+          cases hqn : upd c.heap p { pn with next := some q } q with
+          | none => simp [hqn] at h
+          | some qn =>
+            simp only [hqn, Option.bind_some, Option.some.injEq] at h; subst h
+            refine ⟨HK.trans (by simpa [hq] using h1) (hk_upd _ _ _ (fun m hm => by rw [hqn] at hm; cases hm; rfl)), rfl⟩
+
+
+omit [DecidableEq K] in
+/-- no node is allocated at or beyond the allocation counter -/
+def HB (h : Heap K V) (fr : Nat) : Prop := ∀ i, fr ≤ i → h i = none
+
+omit [DecidableEq K] in
+theorem hb_upd (h : Heap K V) (fr i : Nat) (m n' : Node K V) (hi : h i = some m) (hb : HB h fr) : HB (upd h i n') fr := by
+  intro j hj
+  have : j ≠ i := by intro e; subst e; rw [hb j hj] at hi; cases hi
+  simp [upd, this, hb j hj]
+
+/-- pointer stability + allocation discipline, as one relation between two cache states -/
+def Ext (c c' : Cache K V) : Prop :=
+  HK c.heap c'.heap ∧ c.fresh ≤ c'.fresh ∧ (HB c.heap c.fresh → HB c'.heap c'.fresh)
+
+omit [DecidableEq K] in
+theorem Ext.refl (c : Cache K V) : Ext c c := ⟨HK.refl _, Nat.le_refl _, id⟩
+omit [DecidableEq K] in
+theorem Ext.trans {a b c : Cache K V} (x : Ext a b) (y : Ext b c) : Ext a c :=
+  ⟨x.1.trans y.1, Nat.le_trans x.2.1 y.2.1, fun h => y.2.2 (x.2.2 h)⟩
+
+omit [DecidableEq K] in
+/-- one same-key overwrite of an allocated node -/
+theorem ext_upd (c : Cache K V) (i : Nat) (m n' : Node K V) (hi : c.heap i = some m) (hk : n'.key = m.key)
+    (c' : Cache K V) (hh : c'.heap = upd c.heap i n') (hf : c'.fresh = c.fresh) : Ext c c' := by
+  refine ⟨?_, by rw [hf]; exact Nat.le_refl _, ?_⟩
+  · rw [hh]; exact hk_upd _ _ _ (fun x hx => by rw [hi] at hx; cases hx; exact hk)
+  · intro hb; rw [hh, hf]; exact hb_upd _ _ _ m _ hi hb
+
+theorem remove_ext (c c' : Cache K V) (i : Nat) (h : remove c i = some c') : Ext c c' := by
+  obtain ⟨h1, h2⟩ := remove_hk c c' i h
+  refine ⟨h1, by rw [h2]; exact Nat.le_refl _, ?_⟩
+  intro hb j hj
+  rw [h2] at hj
+  -- a node at j ≥ fresh would have to be allocated in c'; all writes of `remove` go to allocated nodes
+  unfold remove at h
+  simp only [Option.bind_eq_bind, Option.pure_def] at h
+  cases hn : c.heap i with
+  | none => simp [hn] at h
+  | some n =>
+    simp only [hn, Option.bind_some] at h
+    cases hp : n.prev with
+    | none =>
+      simp only [hp, Option.bind_some] at h
+      cases hq : n.next with
+      | none => simp only [hq, Option.bind_some, Option.some.injEq] at h; subst h; exact hb j hj
+      | some q =>
+        simp only [hq] at h
+        cases hqn : c.heap q with
+        | none => simp [hqn] at h
+        | some qn =>
+          simp only [hqn, Option.bind_some, Option.some.injEq] at h; subst h
+          exact hb_upd _ _ _ qn _ hqn hb j hj
+    | some p =>
+      simp only [hp] at h
+      cases hpn : c.heap p with
+      | none => simp [hpn] at h
+      | some pn =>
+        simp only [hpn, Option.bind_some] at h
+        have hb1 := hb_upd c.heap c.fresh p pn { pn with next := n.next } hpn hb
+        cases hq : n.next with
+        | none => simp only [hq, Option.bind_some, Option.some.injEq] at h; subst h; simpa [hq] using hb1 j hj
+        | some q =>
+          simp only [hq] at h hb1
+          cases hqn : upd c.heap p { pn with next := some q } q with
+          | none => simp [hqn] at h
+          | some qn =>
+            simp only [hqn, Option.bind_some, Option.some.injEq] at h; subst h
+            exact hb_upd _ _ _ qn _ hqn hb1 j hj
+
+
+omit [DecidableEq K] in
+def HExt (h h' : Heap K V) (fr : Nat) : Prop := HK h h' ∧ (HB h fr → HB h' fr)
+omit [DecidableEq K] in
+theorem HExt.refl (h : Heap K V) (fr : Nat) : HExt h h fr := ⟨HK.refl _, id⟩
+omit [DecidableEq K] in
+theorem HExt.trans {h1 h2 h3 : Heap K V} {fr : Nat} (a : HExt h1 h2 fr) (b : HExt h2 h3 fr) : HExt h1 h3 fr :=
+  ⟨a.1.trans b.1, fun x => b.2 (a.2 x)⟩
+omit [DecidableEq K] in
+theorem hext_upd (h : Heap K V) (fr i : Nat) (m n' : Node K V) (hi : h i = some m) (hk : n'.key = m.key) :
+    HExt h (upd h i n') fr :=
+  ⟨hk_upd _ _ _ (fun x hx => by rw [hi] at hx; cases hx; exact hk), hb_upd _ _ _ m _ hi⟩
+
+theorem moveToTail_ext (c c' : Cache K V) (i : Nat) (h : moveToTail c i = some c') : Ext c c' := by
+  suffices hs : HExt c.heap c'.heap c.fresh ∧ c'.fresh = c.fresh by
+    exact ⟨hs.1.1, by rw [hs.2]; exact Nat.le_refl _, fun hb => by rw [hs.2]; exact hs.1.2 hb⟩
+  unfold moveToTail at h
+  simp only [Option.bind_eq_bind, Option.pure_def] at h
+  cases hn : c.heap i with
+  | none => simp [hn] at h
+  | some n =>
+    simp only [hn, Option.bind_some] at h
+    cases hq : n.next with
+    | none => simp only [hq, Option.some.injEq] at h; subst h; exact ⟨HExt.refl _ _, rfl⟩
+    | some q =>
+      simp only [hq] at h
+      cases hqn : c.heap q with
+      | none => simp [hqn] at h
+      | some qn =>
+        simp only [hqn, Option.bind_some] at h
+        have e1 := hext_upd c.heap c.fresh q qn { qn with prev := n.prev } hqn rfl
+        cases ht : c.tail with
+        | none =>
+          cases hp : n.prev with
+          | none => simp [hp, ht] at h
+          | some p =>
+            simp only [hp] at h
+            cases hpn : upd c.heap q { qn with prev := some p } p with
+            | none => simp [hpn] at h
+            | some pn => simp [hpn, ht] at h
+        | some t =>
+          -- the remaining lookups, in the heap reached so far
+          have fin : ∀ (hp : Heap K V) (hd : Option Nat), HExt c.heap hp c.fresh →
+              (do
+                let n' ← hp i
+                let heap := upd hp i { n' with prev := some t, next := none }
+                let tn ← heap t
+                let heap := upd heap t { tn with next := some i }
+                pure { c with heap := heap, head := hd, tail := some i } : Option (Cache K V)) = some c' →
+              HExt c.heap c'.heap c.fresh ∧ c'.fresh = c.fresh := by
+            intro hp hd e hh
+            simp only [Option.bind_eq_bind, Option.pure_def] at hh
+            cases hi : hp i with
+            | none => simp [hi] at hh
+            | some n' =>
+              simp only [hi, Option.bind_some] at hh
+              have e2 := hext_upd hp c.fresh i n' { n' with prev := some t, next := none } hi rfl
+              cases htn : upd hp i { n' with prev := some t, next := none } t with
+              | none => simp [htn] at hh
+              | some tn =>
+                simp only [htn, Option.bind_some, Option.some.injEq] at hh; subst hh
+                exact ⟨e.trans (e2.trans (hext_upd _ c.fresh t tn { tn with next := some i } htn rfl)), rfl⟩
+          cases hp : n.prev with
+          | none =>
+            simp only [hp, Option.bind_some, ht] at h e1
+            exact fin _ _ e1 h
+          | some p =>
+            simp only [hp] at h e1
+            cases hpn : upd c.heap q { qn with prev := some p } p with
+            | none => simp [hpn] at h
+            | some pn =>
+              simp only [hpn, Option.bind_some, ht] at h
+              exact fin _ _ (e1.trans (hext_upd _ c.fresh p pn { pn with next := some q } hpn rfl)) h
+
+/-- under the allocation discipline, every node keeps its key and the discipline is kept -/
+def Stable (c c' : Cache K V) : Prop := HB c.heap c.fresh → HK c.heap c'.heap ∧ HB c'.heap c'.fresh
+
+omit [DecidableEq K] in
+theorem Stable.refl (c : Cache K V) : Stable c c := fun hb => ⟨HK.refl _, hb⟩
+omit [DecidableEq K] in
+theorem Stable.trans {a b c : Cache K V} (x : Stable a b) (y : Stable b c) : Stable a c :=
+  fun hb => ⟨(x hb).1.trans (y (x hb).2).1, (y (x hb).2).2⟩
+omit [DecidableEq K] in
+theorem Ext.stable {c c' : Cache K V} (e : Ext c c') : Stable c c' := fun hb => ⟨e.1, e.2.2 hb⟩
+
+theorem insertTail_stable (c c' : Cache K V) (k : K) (v : V) (h : insertTail c k v = some c') : Stable c c' := by
+  intro hb
+  unfold insertTail at h
+  have hk0 : HK c.heap (upd c.heap c.fresh { prev := c.tail, next := none, key := k, val := v }) :=
+    hk_upd _ _ _ (fun n hn => by rw [hb c.fresh (Nat.le_refl _)] at hn; cases hn)
+  have hb0 : HB (upd c.heap c.fresh { prev := c.tail, next := none, key := k, val := v }) (c.fresh + 1) := by
+    intro j hj
+    have : j ≠ c.fresh := by omega
+    simp [upd, this, hb j (by omega)]
+  cases ht : c.tail with
+  | none =>
+    simp only [ht, Option.pure_def, Option.some.injEq] at h; subst h
+    exact ⟨by simpa [ht] using hk0, by simpa [ht] using hb0⟩
+  | some t =>
+    simp only [ht, Option.bind_eq_bind, Option.pure_def] at h hk0 hb0
+    cases htn : upd c.heap c.fresh { prev := some t, next := none, key := k, val := v } t with
+    | none => simp [htn] at h
+    | some tn =>
+      simp only [htn, Option.bind_some, Option.some.injEq] at h; subst h
+      have e := hext_upd _ (c.fresh + 1) t tn { tn with next := some c.fresh } htn rfl
+      exact ⟨hk0.trans e.1, e.2 hb0⟩
+
+theorem insert_stable (c c' : Cache K V) (k : K) (v : V) (h : insert c k v = some c') : Stable c c' := by
+  unfold insert at h
+  simp only [Option.bind_eq_bind, Option.pure_def] at h
+  split at h
+  · cases hh : c.head with
+    | none => simp [hh] at h
+    | some hd =>
+      simp only [hh] at h
+      cases hr : remove c hd with
+      | none => simp [hr] at h
+      | some c1 =>
+        simp only [hr, Option.bind_some] at h
+        exact (remove_ext c c1 hd hr).stable.trans (insertTail_stable c1 c' k v h)
+  · simp only [Option.bind_some] at h
+    exact insertTail_stable c c' k v h
+
+/-- **pointer stability**: whatever operation runs, a node once allocated stays allocated and keeps its
+key — an `*Entry` handed out by `GetEntry(k)` (the API listed in `Gen.entryPointerAPIs`) refers to key
+`k` for ever; nodes are never recycled for another key. -/
+theorem step_stable (c c' : Cache K V) (o : Op K V) (out : Out V) (h : step c o = some (c', out)) : Stable c c' := by
+  cases o with
+  | get k =>
+    simp only [step, get, Option.map_eq_some_iff] at h
+    obtain ⟨⟨c1, r⟩, h1, h2⟩ := h
+    cases h2
+    cases hl : lookupIdx c.idx k with
+    | none => simp only [hl, Option.some.injEq, Prod.mk.injEq] at h1; rw [← h1.1]; exact Stable.refl _
+    | some i =>
+      simp only [hl, Option.bind_eq_bind, Option.pure_def] at h1
+      cases hm : moveToTail c i with
+      | none => simp [hm] at h1
+      | some c2 =>
+        simp only [hm, Option.bind_some] at h1
+        cases hn : c2.heap i with
+        | none => simp [hn] at h1
+        | some n =>
+          simp only [hn, Option.bind_some, Option.some.injEq, Prod.mk.injEq] at h1
+          rw [← h1.1]; exact (moveToTail_ext c c2 i hm).stable
+  | set k v =>
+    simp only [step, set, Option.map_eq_some_iff] at h
+    obtain ⟨c1, h1, h2⟩ := h
+    cases h2
+    cases hl : lookupIdx c.idx k with
+    | none => simp only [hl] at h1; exact insert_stable c c' k v h1
+    | some i =>
+      simp only [hl, Option.bind_eq_bind] at h1
+      cases hn : c.heap i with
+      | none => simp [hn] at h1
+      | some n =>
+        simp only [hn, Option.bind_some] at h1
+        have e1 : Ext c { c with heap := upd c.heap i { n with val := v } } :=
+          ext_upd c i n { n with val := v } hn rfl _ rfl rfl
+        exact e1.stable.trans (moveToTail_ext _ c' i h1).stable
+  | insert k v =>
+    simp only [step, insertNew, Option.map_eq_some_iff] at h
+    obtain ⟨⟨c1, r⟩, h1, h2⟩ := h
+    cases h2
+    cases hl : lookupIdx c.idx k with
+    | some i => simp only [hl, Option.some.injEq, Prod.mk.injEq] at h1; rw [← h1.1]; exact Stable.refl _
+    | none =>
+      simp only [hl, Option.bind_eq_bind, Option.pure_def] at h1
+      cases hi : insert c k v with
+      | none => simp [hi] at h1
+      | some c2 =>
+        simp only [hi, Option.bind_some, Option.some.injEq, Prod.mk.injEq] at h1
+        rw [← h1.1]; exact insert_stable c c2 k v hi
+  | remove k =>
+    simp only [step, removeKey, Option.map_eq_some_iff] at h
+    obtain ⟨⟨c1, r⟩, h1, h2⟩ := h
+    cases h2
+    cases hl : lookupIdx c.idx k with
+    | none => simp only [hl, Option.some.injEq, Prod.mk.injEq] at h1; rw [← h1.1]; exact Stable.refl _
+    | some i =>
+      simp only [hl, Option.bind_eq_bind, Option.pure_def] at h1
+      cases hr : remove c i with
+      | none => simp [hr] at h1
+      | some c2 =>
+        simp only [hr, Option.bind_some, Option.some.injEq, Prod.mk.injEq] at h1
+        rw [← h1.1]; exact (remove_ext c c2 i hr).stable
+  | contains k =>
+    simp only [step, Option.some.injEq, Prod.mk.injEq] at h
+    rw [← h.1]; exact Stable.refl _
+
+theorem run_stable (c c' : Cache K V) (ops : List (Op K V)) (outs : List (Out V)) (h : run c ops = some (c', outs)) :
+    Stable c c' := by
+  induction ops generalizing c c' outs with
+  | nil => simp only [run, Option.some.injEq, Prod.mk.injEq] at h; rw [← h.1]; exact Stable.refl _
+  | cons o rest ih =>
+    simp only [run, Option.bind_eq_bind, Option.pure_def] at h
+    cases hs : step c o with
+    | none => simp [hs] at h
+    | some p =>
+      obtain ⟨c1, out⟩ := p
+      simp only [hs, Option.bind_some] at h
+      cases hr : run c1 rest with
+      | none => simp [hr] at h
+      | some q =>
+        obtain ⟨c2, outs2⟩ := q
+        simp only [hr, Option.bind_some, Option.some.injEq, Prod.mk.injEq] at h
+        rw [← h.1]
+        exact (step_stable c c1 o out hs).trans (ih c1 c2 outs2 hr)
+
+
 end SSV.Lru
